@@ -658,7 +658,11 @@ func (r *Result) methodRules(mk *Mock, f *Func, fl *flow, lr *lockResult, funcFi
 			if e.detail == "append1" {
 				appends = append(appends, e)
 			} else {
-				r.add("K-RECORD/writers", "method:"+e.detail, nodePos(e.node), false, "%s writes the record slice other than by appending one element (%s)  [%s]", name, e.detail, u.Excerpt(nodePos(e.node)))
+				// filling the slot the method has just appended, through a pointer to it, is the method's own
+				// record (whether that happens under the lock is K-LOCK/access-locked's question, whether every
+				// parameter gets there K-RECORD/literal's)
+				own := e.detail == "element-through-pointer" && len(appends) > 0
+				r.add("K-RECORD/writers", "method:"+e.detail, nodePos(e.node), own, "%s writes the record slice other than by appending one element (%s)  [%s]", name, e.detail, u.Excerpt(nodePos(e.node)))
 			}
 		case evParamWrite:
 			r.add("K-CALLBACK/params-untouched", "method", nodePos(e.node), false, "%s: %s — the configured function (or the record) would not receive the caller's value", name, e.detail)
